@@ -29,7 +29,8 @@ class Result:
         self.trusted = []
         self.assumptions = []
         self.nontrivial = set()
-    def distinct_nontrivial(self): return len(self.nontrivial)
+        self.nontrivial_counted = 0   # distinct non-trivial cases counted without being kept (enumerations)
+    def distinct_nontrivial(self): return len(self.nontrivial) + self.nontrivial_counted
     def tag(self, t): self.tags[t] = self.tags.get(t, 0) + 1
 
 # ------------------------------------------------------------------ ops
@@ -1109,15 +1110,21 @@ def note_ic(res, cases):
 
 def c05(ctx):
     res = Result()
-    L = 4 if not ctx.thorough else 6
+    L = 4 if not ctx.thorough else 5
     res.rule = (f'exhaustive: every sequence of {L} operations over push(x), x in {{0, s, 2s, 3s, 7, 2^32-1, 2^32, 2^63, 2^64-1}} '
                 'for s in {1, 3}, and clear, observed after every operation (len, is_empty, index(i) for all i < len, '
                 'index(len), index(len+1), iteration), on Vec<usize>, IndexList, IndexOptimized and Stride (push result and '
                 'public enum value), both build profiles; plus long random sequences that continue / repeat / break '
                 'strides with extend; non-trivial = distinct sequence with >= 2 pushes')
     kinds = ['vec', 'ilist', 'iopt', 'stride']
-    cases = ic_exhaustive_cases(L, [1, 3], kinds)
-    cases += ic_random_cases(ctx, 300 if not ctx.thorough else 3000, kinds, 200)
+    # chunked (one stride and container kind at a time) so that the thorough tier's 8 * 10^5 histories never sit in memory at once
+    for s_ in (1, 3):
+        for k_ in kinds:
+            chunk = ic_exhaustive_cases(L, [s_], [k_])
+            res.nontrivial_counted += sum(1 for _, _, ops_ in chunk if sum(1 for a in ops_ if a[0] == 'p') >= 2)   # an enumeration: all distinct
+            res.samples.append({'container': k_, 'ops': chunk[len(chunk) // 2][1]})
+            run_ic_cases(ctx, res, chunk)
+    cases = ic_random_cases(ctx, 300 if not ctx.thorough else 3000, kinds, 200)
     note_ic(res, cases)
     res.exhaustive = True
     res.extra['exhaustive_part'] = f'all operation sequences of length {L} over the 10-letter alphabet (9 values + clear), strides 1 and 3, 4 containers'
@@ -1297,7 +1304,7 @@ def c03(ctx):
 
 def c19(ctx):
     res = Result()
-    L = 4 if not ctx.thorough else 6
+    L = 4 if not ctx.thorough else 5
     res.rule = (f'(a) exhaustive: every sequence of {L} pushes over the transition-covering alphabet of C05 (strides 1 and 3), '
                 'heap_size used bytes of IndexOptimized / IndexList / Vec compared after every push with the documented rule '
                 '(stride-matching prefix free; remainder 4 bytes per entry while values fit u32, 8 bytes from the first larger '
@@ -1305,8 +1312,13 @@ def c19(ctx):
                 '(c) FlatStack<_, IndexOptimized> over consecutive-pair and columns regions with arbitrary contents: zero '
                 'index bytes and zero index capacity for any number of items')
     kinds = ['vec', 'ilist', 'iopt']
-    cases = ic_exhaustive_cases(L, [1, 3], kinds, with_clear=False)
-    cases += ic_random_cases(ctx, 200 if not ctx.thorough else 2000, kinds, 400)
+    for s_ in (1, 3):
+        for k_ in kinds:
+            chunk = ic_exhaustive_cases(L, [s_], [k_], with_clear=False)
+            res.nontrivial_counted += sum(1 for _, _, ops_ in chunk if sum(1 for a in ops_ if a[0] == 'p') >= 2)
+            res.samples.append({'container': k_, 'ops': chunk[len(chunk) // 2][1]})
+            run_ic_cases(ctx, res, chunk, cost_oracle=True)
+    cases = ic_random_cases(ctx, 200 if not ctx.thorough else 2000, kinds, 400)
     # long regular shapes
     for s, n, r in [(1, 3000, 0), (3, 500, 200), (0, 300, 0), (W32, 50, 10), (2 ** 62, 3, 5), (7, 2, 300)]:
         ops = [('p', s * i) for i in range(n) if s * i < W64] + [('p', min(s * (n - 1), W64 - 1))] * r + [('o',)]
